@@ -16,7 +16,8 @@
         w:<id>:<len> = writeOne, m:<id>:<len> = killed between the data write and the index write + restart, o = restart;
         a = 1: the data file handle is in O_APPEND mode (not what the code does)
     roll <b 0|1> <maxSize> <tok> …           -> ok <maxdatfileidx> <maxdatfilepos> <every record reads back its block 0|1> <id>:<file>:<fpos>:<blen> …
-        positional block store with data-file roll-over (Model/PersistRoll.lean), from an empty directory:
+        positional block store with data-file roll-over (Model/PersistRoll.lean): the directory holds the index records
+        r:<id>:<file>:<fpos>:<blen> … (and exactly their data), it is opened (LoadBlockIndex + Seek), then
         w:<id>:<len> = writeOne, x:<id>:<len> = killed after the roll-over check/create + restart, m:<id>:<len> = killed between
         the data write and the index write + restart, o = restart; b = 1: the else-if variant of LoadBlockIndex (not what the code does)
 -/
@@ -84,27 +85,36 @@ def parsePos (recs : List PRec) (ops : List POp) : List String → Option (List 
     | ["o"] => parsePos recs (POp.restart :: ops) rest
     | _ => none
 
-def parseRoll (ops : List ROp) : List String → Option (List ROp)
-  | [] => some ops.reverse
+def parseRoll (recs : List RRec) (ops : List ROp) : List String → Option (List RRec × List ROp)
+  | [] => some (recs.reverse, ops.reverse)
   | t :: rest =>
     match t.splitOn ":" with
+    | ["r", id, f, fp, bl] =>
+      match id.toNat?, f.toNat?, fp.toNat?, bl.toNat? with
+      | some id, some f, some fp, some bl =>
+        if ops.isEmpty then parseRoll ({ id := id, file := f, fpos := fp, blen := bl } :: recs) ops rest else none
+      | _, _, _, _ => none
     | ["w", id, l] =>
       match id.toNat?, l.toNat? with
-      | some id, some l => parseRoll (ROp.write id l :: ops) rest
+      | some id, some l => parseRoll recs (ROp.write id l :: ops) rest
       | _, _ => none
     | ["x", id, l] =>
       match id.toNat?, l.toNat? with
-      | some id, some l => parseRoll (ROp.crashRoll id l :: ops) rest
+      | some id, some l => parseRoll recs (ROp.crashRoll id l :: ops) rest
       | _, _ => none
     | ["m", id, l] =>
       match id.toNat?, l.toNat? with
-      | some id, some l => parseRoll (ROp.crashMid id l :: ops) rest
+      | some id, some l => parseRoll recs (ROp.crashMid id l :: ops) rest
       | _, _ => none
-    | ["o"] => parseRoll (ROp.restart :: ops) rest
+    | ["o"] => parseRoll recs (ROp.restart :: ops) rest
     | _ => none
 
-def rollQuery (b : Bool) (maxSize : Nat) (ops : List ROp) : String :=
-  let s := rrun b maxSize {} ops
+def rollQuery (b : Bool) (maxSize : Nat) (recs : List RRec) (ops : List ROp) : String :=
+  let fileOf : Nat → DatFile := fun k =>
+    let rs := recs.filter (fun r => r.file == k)
+    DatFile.mk (rs.map (fun r => (r.fpos, r.id, r.blen))) (rs.foldl (fun m r => max m (r.fpos + r.blen)) 0)
+  let d : RDisk := RDisk.mk fileOf recs
+  let s := rrun b maxSize (ropen b d) ops
   let rs := s.d.idx.map (fun r => s!"{r.id}:{r.file}:{r.fpos}:{r.blen}")
   s!"ok {s.n.maxidx} {s.n.maxpos} {if rreadsBack s.d then 1 else 0}" ++ (if rs.isEmpty then "" else " " ++ " ".intercalate rs)
 
@@ -123,8 +133,8 @@ def step (st : OState) (toks : List String) : OState × String :=
     | some a, some len, some (recs, ops) => if a > 1 then (st, "bad-op") else (st, posQuery (a == 1) len recs ops)
     | _, _, _ => (st, "bad-op")
   | "roll" :: b :: ms :: rest =>
-    match b.toNat?, ms.toNat?, parseRoll [] rest with
-    | some b, some ms, some ops => if b > 1 then (st, "bad-op") else (st, rollQuery (b == 1) ms ops)
+    match b.toNat?, ms.toNat?, parseRoll [] [] rest with
+    | some b, some ms, some (recs, ops) => if b > 1 then (st, "bad-op") else (st, rollQuery (b == 1) ms recs ops)
     | _, _, _ => (st, "bad-op")
   | "load" :: g :: rest =>
     match g.splitOn ":" with
